@@ -91,6 +91,7 @@ struct endctx {
 	int wr_forgive;                       /* app added output while a writecb was pending */
 	size_t prev_out_len; size_t prev_wr_total;
 	int wcb_due;                          /* a write-out left output <= low and no writecb has run since */
+	int was_blocked;                      /* input was observed at/above a non-zero high read mark and nothing has arrived since */
 	int resume_due;                       /* the app drained below the high mark: reading has to resume */
 	size_t resume_arrived;
 	/* C19 */
@@ -277,6 +278,8 @@ static void observe_end(struct endctx *c, const char *where)
 		}
 	}
 	if (!hi || len <= hi) c->hw_forced = 0;
+	if (len > c->prev_in_len) c->was_blocked = 0;            /* something arrived */
+	if (hi && len >= hi) c->was_blocked = 1;
 	c->prev_in_len = len;
 	/* C18: a filter does not push its underlying output past the underlying high write mark */
 	if (c->nstack > 1 && BEV_IS_FILTER(c->bev)) {
@@ -417,7 +420,12 @@ static void readcb(struct bufferevent *bev, void *arg)
 	if (c->policy != P_LEAVE) {
 		/* after the application drained: C18 resume bookkeeping */
 		size_t now = in_len(c);
-		if (hi && len >= hi && now < hi) { c->resume_due = 1; c->resume_arrived = c->rd_total + now; }
+		size_t lo2 = 0, hi2 = 0;
+		if (!c->freed) bufferevent_getwatermark(bev, EV_READ, &lo2, &hi2);
+		(void)hi;
+		/* "reading resumes as soon as the application drains below it": the input was blocked by the mark
+		 * (possibly changed or removed since) and the application has now drained below the current one */
+		if (c->was_blocked && now < len && (!hi2 || now < hi2)) { c->resume_due = 1; c->resume_arrived = c->rd_total + now; c->was_blocked = 0; }
 		c->prev_in_len = now < c->prev_in_len ? now : c->prev_in_len;
 	}
 	if (c->policy == P_FREE_PEER_RD) free_end(peer_of(c));
@@ -819,9 +827,9 @@ static int apply(const struct op *o)
 		if (!BEV_UPCAST(c->bev)->readcb_pending) c->rd_low_floor = o->a;
 		else if ((size_t)o->a < c->rd_low_floor) c->rd_low_floor = o->a;
 		bufferevent_setwatermark(c->bev, EV_READ, o->a, o->b);
-		if (o->b == 0 || in_len(c) < (size_t)o->b) {
-			if (hi && in_len(c) >= hi) { c->resume_due = 1; c->resume_arrived = c->rd_total + in_len(c); }
-		} else c->resume_due = 0;
+		/* changing the mark is not "draining": no resume expectation arises here (the property speaks of
+		 * draining); one that is pending is dropped if the input is at/above the new mark */
+		if (o->b && in_len(c) >= (size_t)o->b) c->resume_due = 0;
 		mc_observe("rwm%d(%d,%d) ", c->id, o->a, o->b);
 		return 1; }
 	case OP_WWM: {
@@ -1032,7 +1040,7 @@ static int canon(uint64_t *out)
 		struct endctx *c = &E[e], *p = peer_of(c);
 		H(0xe0 + e); H(c->freed); H(c->cleared); H(c->policy); H(c->wr_closed); H(c->rd_finished_flush); H(c->did_rflush); H(c->conserve_off);
 		H(c->since_eof ? c->since_eof[0] + c->since_eof[3] * 256 : 0); H(c->eof_seen); if (c->eof_seen) h = mc_hash(h, c->eof_stuck, strlen(c->eof_stuck)); H(c->hw_forced); H(c->uw_forced); H(c->rd_low_floor); H(c->wr_low_ceil); H(c->wr_forgive);
-		H(c->wcb_due); H(c->resume_due); H(c->n_connected); H(c->cbs_before_connected > 0);
+		H(c->wcb_due); H(c->resume_due); H(c->was_blocked); H(c->n_connected); H(c->cbs_before_connected > 0);
 		H(c->n_eof_r > 1 ? 2 : c->n_eof_r); H(c->n_eof_w > 1 ? 2 : c->n_eof_w);
 		H(c->n_err_r > 1 ? 2 : c->n_err_r); H(c->n_err_w > 1 ? 2 : c->n_err_w); H(c->n_err_plain > 1 ? 2 : c->n_err_plain);
 		H(c->prev_in_len); H(c->prev_uout_len); H(c->prev_out_len); H(c->wr_total - c->prev_wr_total);
